@@ -57,13 +57,17 @@ def _run_real(A, hull_ok=True):
     from mahotas.polygon import convexhull, fill_convexhull
     out = {}
     before = A.copy()
-    t = mh.thin(A)
-    out['thin'] = t
-    out['thin2'] = mh.thin(t)
-    out['e8'] = mh.euler(A, 8)
-    out['e4'] = mh.euler(A, 4)
+    try:
+        t = mh.thin(A)
+        out['thin'] = t
+        out['thin2'] = mh.thin(t)
+        out['e8'] = mh.euler(A, 8)
+        out['e4'] = mh.euler(A, 4)
+        if hull_ok:
+            out['hull'] = np.asarray(convexhull(A))
+    except Exception as e:              # a documented call that raises is a finding, not an infrastructure error
+        return dict(raised=f'{type(e).__name__}: {e}'[:300], exc=type(e).__name__)
     if hull_ok:
-        out['hull'] = np.asarray(convexhull(A))
         try:
             out['fill'] = fill_convexhull(A)
         except Exception as e:          # a documented call that raises: judged below
@@ -142,27 +146,39 @@ def _nontrivial(A, real, drv_euler):
     return bool(changed or holes or big)
 
 
+def _raised_result(case, real):
+    return dict(findings=[dict(kind='property', key=f"raised:{real['exc']}", detail=dict(error=real['raised'], input=case['data'][:64]))],
+                nontrivial=False, sig='raised' + str(hash(tuple(case['data']))),
+                tags=dict(dtype=case.get('dtype', 'bool'), layout=case.get('layout', 'C'), kind=case.get('gen', 'corpus')))
+
+
 def _eval_single(cases):
-    res, pend, lines = [], [], []
+    res, pend, lines, raised = [], [], [], []
     for case in cases:
         A0 = _arr(case)
         layout = case.get('layout', 'C')
         A = gen.relayout(A0, layout)
         real = _run_real(A, hull_ok=(layout != 'readonly'))
+        if 'raised' in real:
+            raised.append((case, real))
+            continue
         tg = [int(v != 0) for v in real['thin'].ravel().tolist()]
         hg = [int(v) for v in real['hull'].ravel().tolist()] if 'hull' in real else None
         lines += _lines(case['shape'], case['data'], tg, hg)
         pend.append((case, A, real, layout))
     drvs = core.drive(lines)
+    byid = {}
+    for case, real in raised:
+        byid[id(case)] = _raised_result(case, real)
     for k, (case, A, real, layout) in enumerate(pend):
         drv = drvs[3 * k:3 * k + 3]
         f = _judge(case, A, real, *drv)
-        res.append(dict(findings=f, nontrivial=_nontrivial(A, real, drv[1]),
+        byid[id(case)] = (dict(findings=f, nontrivial=_nontrivial(A, real, drv[1]),
                         sig=f"{case['shape']}{case.get('dtype', 'bool')}{layout}{hash(tuple(case['data']))}",
                         tags=dict(dtype=case.get('dtype', 'bool'), layout=layout, kind=case.get('gen', 'corpus'),
                                   size=('<=15px' if A.size <= 15 else '<=100px' if A.size <= 100 else '>100px'),
                                   fill=('empty' if not A.any() else 'full' if A.all() else 'mixed'))))
-    return res
+    return [byid[id(c)] for c in cases]
 
 
 def _eval_block(case):
@@ -176,6 +192,13 @@ def _eval_block(case):
         data = [(ii >> k) & 1 for k in range(n)]
         A = np.array(data, bool).reshape(shape)
         real = _run_real(A)
+        if 'raised' in real:
+            c = dict(shape=list(shape), data=data, dtype='bool', layout='C', gen='exhaustive')
+            x = _raised_result(c, real)['findings'][0]
+            x['case'] = c
+            findings.append(x)
+            count += 1
+            continue
         batch.append((data, A, real))
     lines = []
     for data, A, real in batch:
@@ -276,7 +299,7 @@ def cases(rng, tier):
             for lo in range(0, 1 << n, step):
                 out.append(dict(block='exh', shape=[r, c], lo=lo, hi=min(1 << n, lo + step)))
     else:
-        per = 200 if tier == 'quick' else 600
+        per = 500 if tier == 'quick' else 1000
         for (r, c) in SCOPE_SHAPES:
             n = r * c
             if (1 << n) <= 1024:
@@ -288,7 +311,7 @@ def cases(rng, tier):
                 imgs = sorted(set(imgs) | {0, (1 << n) - 1})
                 for j in range(0, len(imgs), 64):
                     out.append(dict(block='exh', shape=[r, c], imgs=imgs[j:j + 64]))
-    nrand = dict(quick=1500, thorough=30000, search=6000)[tier]
+    nrand = dict(quick=3000, thorough=30000, search=6000)[tier]
     for _ in range(nrand):
         A, g = _rand_image(rng)
         dtype = rng.choice(['bool', 'bool', 'bool', 'uint8', 'int32', 'uint16'])
